@@ -144,4 +144,9 @@ pub trait Property {
     fn crosscheck(_sc: &Self::Sc, _ctx: &mut Ctx, _bins: &std::path::Path) -> crate::crosscheck::Xc {
         crate::crosscheck::Xc::NotComparable
     }
+    /// A few fixed scenarios that every cross-check runs besides the seeded ones (what the
+    /// executables do differently from the library shows best on big outputs).
+    fn crosscheck_extras() -> Vec<Self::Sc> {
+        vec![]
+    }
 }
